@@ -170,6 +170,14 @@ def parseGroups : Nat → Nat → List Char → Option Nat
       if d > 2 ^ 63 then none else
       if rest'.isEmpty then some d else parseGroups fuel d rest'
 
+/-- the part of `time.ParseDuration` after the sign: "0" alone is zero; otherwise the groups; the negative range reaches 2^63,
+the positive one 2^63 - 1 -/
+def finishTimeout (neg : Bool) (body : List Char) : Option Int :=
+  if body == ['0'] then some 0 else
+  match parseGroups (body.length + 1) 0 body with
+  | none => none
+  | some n => if neg then some (-(n : Int)) else if n > 2 ^ 63 - 1 then none else some (n : Int)
+
 /-- `config.Timeout.UnmarshalText`: a value that ends in a digit gets the unit "ms"; then `time.ParseDuration` (whole
 numbers; an optional sign; "0" alone is zero).  The stored value is the number of nanoseconds. -/
 def parseTimeout (v : CBytes) : Option Int :=
@@ -181,10 +189,7 @@ def parseTimeout (v : CBytes) : Option Int :=
     | '-' :: r => (true, r)
     | '+' :: r => (false, r)
     | r => (false, r)
-  if body == ['0'] then some 0 else
-  match parseGroups (body.length + 1) 0 body with
-  | none => none
-  | some n => if neg then some (-(n : Int)) else if n > 2 ^ 63 - 1 then none else some (n : Int)
+  finishTimeout neg body
 
 /-- typed assignment (`unmarshalValue` / `flag.Value.Set`): the canonical stored value, or `none` = error.
     `fromFile` selects the file's conventions (empty value = zero value; yes/no/on/off words). -/
